@@ -58,7 +58,7 @@ TRUSTED = [
     "the document -> token abstraction: policy values are compared by canonical JSON text",
 ]
 
-FILES = ["a.json", "b.json", "c.json", "d.json"]
+FILES = ["a.json", "b.json", "c.json", ".d.json"]     # (a policy file is any *.json of the directory: also one whose name starts with a dot)
 NAMES = ["p", "q", "r", "default"]
 OTS = [t.name for t in IM.enums.ObjectType]
 OPS = [o.name for o in IM.enums.Operation]
